@@ -77,12 +77,16 @@ def streams(tier, rng, P, only=None, cases=None):
         cs = []
         n = 3000 if big else 500
         for i in range(n):
-            form = rng.choice(["rest", "note", "noten", "l", "bang_time", "bang_arg", "after_res", "nol", "nol"])
+            form = rng.choice(["rest", "note", "noten", "l", "bang_time", "bang_arg", "after_res", "nol", "nol", "div", "div", "divin"])
             text, s, k = gen_expr(rng, True, layout=(form in ("rest", "note", "l") and rng.random() < 0.4))
             tb = rng.choice([48, 96, 120, 480, 960])
             dtext, ds, _ = gen_expr(rng, True)
             if form == "rest": src = "TimeBase(%d) l%s r%s n60" % (tb, dtext, text)
             elif form == "note": src = "TimeBase(%d) l%s c%s n60" % (tb, dtext, text)
+            elif form == "div": src = "TimeBase(%d) l%s %s%s n60" % (tb, dtext, rng.choice(["{cde}", "{c d}", "Div{c}", "{c {d e}}", "{[3 c]}"]), text)   # the length written after a tuplet
+            elif form == "divin":
+                # inside an enclosing tuplet the default of the inner tuplet's length is the share of the outer one; after both, the outer length counts
+                src = "TimeBase(%d) l%s {c {d e}^}%s n60" % (tb, dtext, text)
             elif form == "noten": src = "TimeBase(%d) l%s n61%s n60" % (tb, dtext, ("," + text) if text else "")   # numbered note: its length slot
             elif form == "after_res":
                 # a used-up length reservation (l.onNote / l.onCycle stopped by `l`) leaves the default length alone: an omitted length is again `l`
